@@ -2,6 +2,7 @@ import Lean.Data.Json
 import Verif.Gen.Errors
 open Lean
 namespace Verif.Drv.Errors
+-- DRIVER: errors
 /-- {"m":"errors","code":<int>} -> {"retryable":bool,"inNon":bool,"inRet":bool,"named":bool} -/
 def handle (j : Json) : Except String Json := do
   let c ← j.getObjValAs? Int "code"
